@@ -301,7 +301,7 @@ fn main() {
                     let (small, _) = shrink(&j.text, None, nw);
                     ctx.spec_fail(format!(
                         "editor analysis takes the host process down ({why}: {}) on the text {:?} (shortest failing prefix of {})",
-                        if why == "abort" { "stack overflow or abort inside check_lsp or a query" } else { "no answer within 40 s" },
+                        if why == "abort" { "stack overflow or abort inside check_lsp or a query" } else { "no answer after 300 s of CPU time when run alone" },
                         small, j.label
                     ));
                 }
